@@ -30,7 +30,7 @@ ASSUMPTIONS = [
     'well-formedness of subset vectors is stated in bijection form (POS); that get_subset_vector outputs satisfy it is an induction the solver does not do: checked by the bounded stand-in only',
     'callees without loops are rebuilt from the real source in the same namespace and verified as part of their caller (inlined); the composite projections (project_chain_to_cycles, project_chain_to_samples, project_subset_to_samples) and map_subset_to_sample call their callees through contract stubs whose pre-conditions become obligations at the call and whose post-conditions are the ones discharged in the callee\'s own unit',
 ]
-NOT_COVERED = ['map_chain_to_cycle, map_chain_to_samples: np.hstack over a symbolic-length comprehension of variable-length pieces - bounded stand-in only',
+NOT_COVERED = ['map_chain_to_samples: np.hstack over a symbolic-length comprehension of variable-length pieces - bounded stand-in only',
                'augmented-cycle maps (outside the property)']
 
 N = z3.Int('N')        # samples
@@ -169,7 +169,8 @@ def units(tier):
     def subset_to_cycle_stub(subset_vect, ii):
         """contract of map_subset_to_cycle (its own unit above: post:exactly-one, post:is-POS): requires 0 <= ii < number of subset cycles"""
         c = core.C()
-        c.oblige('map_subset_to_cycle:requires-existing-subset-cycle', z3.And(0 <= lift(ii), lift(ii) < NS), 'pre')
+        if not core.Ctx.spec:
+            c.oblige('map_subset_to_cycle:requires-existing-subset-cycle', z3.And(0 <= lift(ii), lift(ii) < NS), 'pre')
         return SArr((z3.IntVal(1),), lambda q: POS(lift(ii)), 'i')
     unit('map_subset_to_sample', mk, lambda c, a, kw, r: _post_set(c, 'post', r, a[1].shape[0], lambda s: a[1][s] == wrap(POS(lift(a[2])))),
          inline=['map_cycle_to_samples'])
@@ -200,6 +201,32 @@ def units(tier):
         ch, CH = _ch(c)
         return (ch, _idx(c, 'k', NCH)), {}
     unit('map_chain_to_subset', mk, lambda c, a, kw, r: _post_set(c, 'post', r, a[0].shape[0], lambda s: a[0][s] == a[1]))
+
+    # -- map_chain_to_cycle: the cycles of chain k = the cycles POS(j) of the subset cycles j with chain_vect[j] == k, in subset order
+    def mk(c):
+        c.assume(z3.And(NS >= 1, NCH >= 1))
+        ch, CH = _ch(c)
+        sv, SV = _sv(c)
+        npshim.register_param_where(c, CH, NS, 'chv')
+        return (ch, sv, _idx(c, 'k', NCH)), {}
+
+    def post(c, a, kw, r):
+        ch, sv, k = a
+        KKc, WWc, PPc = c.ghost['param_where'][-1][2:5]
+        j = z3.Int('pj')
+        cy = z3.Int('pc')
+        n = KKc(lift(k))
+        c.oblige('post:one-cycle-per-subset-cycle-of-the-chain', r.shape_e[0] == n, 'post')
+        c.oblige('post:j-th-entry-is-the-cycle-of-the-j-th-subset-cycle-of-the-chain', z3.Implies(z3.And(0 <= j, j < n), r.elem(j) == POS(WWc(lift(k), j))), 'post')
+        with core.SpecMode():
+            c.oblige('post:sound', z3.Implies(z3.And(0 <= j, j < n), z3.And(0 <= r.elem(j), r.elem(j) < NC, lift(sv[wrap(r.elem(j))] >= 0), lift(ch[sv[wrap(r.elem(j))]] == k))), 'post')
+        # complete: every cycle whose subset cycle lies in chain k is listed (witness: the rank of that subset cycle in the chain)
+        SVf = sv.elem
+        CHf = ch.elem
+        c.oblige('post:complete', z3.Implies(z3.And(0 <= cy, cy < NC, SVf(cy) >= 0, CHf(SVf(cy)) == lift(k)),
+                                             z3.And(0 <= PPc(lift(k), SVf(cy)), PPc(lift(k), SVf(cy)) < n, r.elem(PPc(lift(k), SVf(cy))) == cy)), 'post')
+    unit('map_chain_to_cycle', mk, post, inline=['map_chain_to_subset'])
+    U[-1].ns = dict(U[-1].ns or {}, map_subset_to_cycle=subset_to_cycle_stub)
 
     def mk(c):
         c.assume(z3.And(NS >= 1, NCH >= 1))
